@@ -36,6 +36,22 @@ pub struct Cand {
     pub pair: bool,
     pub class: Class,
     pub plain: usize,
+    /// number of events (0 = 2 if `pair` else 1)
+    #[serde(default)]
+    pub n_events: usize,
+    /// event ids, timestamps and metadata are pseudo-random too (UUIDv4-style ids: the record's fixed fields do not
+    /// compress either)
+    #[serde(default)]
+    pub random_header: bool,
+}
+
+impl Cand {
+    fn n(&self) -> usize {
+        if self.n_events > 0 { self.n_events } else if self.pair { 2 } else { 1 }
+    }
+    fn meta_len(&self) -> usize {
+        if self.random_header { 12 } else { 0 }
+    }
 }
 
 #[derive(Serialize, Deserialize, Clone, Debug)]
@@ -61,25 +77,49 @@ const STREAM: &str = "c19";
 const NAME: &str = "E";
 
 fn cand_tx(c: &Cand, counter: u64) -> Transaction {
-    let n = if c.pair { 2 } else { 1 };
+    let n = c.n();
     let mut evs: SmallVec<[NewEvent; 4]> = SmallVec::new();
-    for k in 0..n {
+    let mut rng = XorShift::new(0xFEED ^ counter);
+    for k in 0..n as u64 {
+        let (id, timestamp, metadata) = if c.random_header {
+            // counter in the low bits keeps ids distinct; everything else is noise
+            let b = rng.bytes(16);
+            let mut v = u128::from_le_bytes(b.try_into().unwrap());
+            v = (v & !0xFFFFu128) | ((counter + k) as u128 & 0xFFFF);
+            // the 16 bits every event id of this partition key must carry
+            v = (v & !(0xFFFFu128 << 46)) | ((hash_of(0) as u128) << 46);
+            (uuid::Uuid::from_u128(v), u64::from_le_bytes(rng.bytes(8).try_into().unwrap()) >> 2, rng.bytes(12))
+        } else {
+            (event_id(0, counter + k), 77, vec![])
+        };
         evs.push(NewEvent {
-            event_id: event_id(0, counter + k),
+            event_id: id,
             stream_id: StreamId::new(STREAM).unwrap(),
             stream_version: ExpectedVersion::Any,
             event_name: NAME.into(),
-            timestamp: 77,
-            metadata: vec![],
+            timestamp,
+            metadata,
             payload: content(c.class, c.plain, k),
         });
+    }
+    if c.random_header {
+        // partition key and transaction id are noise as well (the key carries the partition's hash bits)
+        let noise = |rng: &mut XorShift| u128::from_le_bytes(rng.bytes(16).try_into().unwrap());
+        let pk = (noise(&mut rng) & !(0xFFFFu128 << 46)) | ((hash_of(0) as u128) << 46);
+        let txid = sierradb::id::set_uuid_flag(uuid::Uuid::from_u128(noise(&mut rng)), n == 1);
+        return Transaction::new(uuid::Uuid::from_u128(pk), partition_of(0), evs).unwrap().with_transaction_id(txid);
     }
     Transaction::new(partition_key(0), partition_of(0), evs).unwrap().with_transaction_id(tx_id(counter, n == 1))
 }
 
+/// The id of the candidate's first event (for the read-back).
+fn cand_first_id(c: &Cand, counter: u64) -> uuid::Uuid {
+    cand_tx(c, counter).events()[0].event_id
+}
+
 fn estimate(c: &Cand) -> usize {
-    let per = EVENT_FIXED + STREAM.len() + NAME.len() + c.plain;
-    if c.pair { 2 * per + COMMIT } else { per }
+    let per = EVENT_FIXED + STREAM.len() + NAME.len() + c.meta_len() + c.plain;
+    if c.n() > 1 { c.n() * per + COMMIT } else { per }
 }
 
 /// Stored size of the candidate on an empty, very large segment.
@@ -89,11 +129,11 @@ fn measure(compression: bool, c: &Cand) -> Result<usize, String> {
     match h.raw_append(cand_tx(c, 1)) {
         AppendOutcome::Accepted(r) => {
             let db = h.db().clone();
-            let first = event_id(0, 1);
+            let first = cand_first_id(c, 1);
             let ce = h.rt.block_on(async move { db.read_transaction(partition_of(0), first).await }).map_err(|e| e.to_string())?.ok_or("measured transaction not readable")?;
             let evs: Vec<_> = ce.into_iter().collect();
             let last = evs.last().unwrap();
-            let end = last.offset + last.size + if c.pair { COMMIT as u64 } else { 0 };
+            let end = last.offset + last.size + if c.n() > 1 { COMMIT as u64 } else { 0 };
             let _ = r;
             Ok(end as usize - SEG_HEADER)
         }
@@ -107,9 +147,16 @@ fn candidates(seg: usize, thorough: bool) -> Vec<Cand> {
     let plains: Vec<usize> = if thorough { vec![100, 127, 128, 129, 4000, 60_000] } else { vec![100, 129, 4000] };
     for class in [Class::Xorshift, Class::Zeros, Class::Text] {
         for &p in &plains {
-            v.push(Cand { pair: false, class, plain: p });
+            v.push(Cand { pair: false, class, plain: p, n_events: 0, random_header: false });
             if thorough || p == 129 {
-                v.push(Cand { pair: true, class, plain: p });
+                v.push(Cand { pair: true, class, plain: p, n_events: 0, random_header: false });
+            }
+        }
+        // incompressible fixed fields (random ids / timestamps / metadata), small events, several per transaction
+        if class == Class::Xorshift {
+            let shapes: Vec<(usize, usize)> = if thorough { vec![(1, 20), (1, 100), (1, 129), (2, 100), (10, 20), (10, 100), (10, 129), (40, 100), (1, 4000), (4, 4000)] } else { vec![(1, 100), (10, 100), (10, 129)] };
+            for (n, p) in shapes {
+                v.push(Cand { pair: n == 2, class, plain: p, n_events: n, random_header: true });
             }
         }
         // right around "just fits an empty segment" (by the estimate)
@@ -117,7 +164,7 @@ fn candidates(seg: usize, thorough: bool) -> Vec<Cand> {
         let deltas: Vec<i64> = if thorough { (-8..=24).collect() } else { vec![-8, -1, 0, 1, 13, 24] };
         for d in deltas {
             let plain = (seg as i64 - SEG_HEADER as i64 - fixed as i64 - d) as usize;
-            v.push(Cand { pair: false, class, plain });
+            v.push(Cand { pair: false, class, plain, n_events: 0, random_header: false });
         }
     }
     v
@@ -135,6 +182,9 @@ pub fn cases(tier: Tier) -> Vec<Case> {
                     Ok(s) => s,
                     Err(e) => vcommon::machinery_fail(&format!("cannot measure stored size of {cand:?}: {e}")),
                 };
+                if std::env::var("VERIF_C19_DEBUG").is_ok() {
+                    eprintln!("cand {cand:?} compression={compression} estimate={est} stored={stored}");
+                }
                 let mut frees: BTreeSet<usize> = BTreeSet::new();
                 let w = if thorough { 16i64 } else { 6 };
                 for d in -w..=w {
@@ -142,6 +192,16 @@ pub fn cases(tier: Tier) -> Vec<Case> {
                         let f = base + d;
                         if f > 0 && (f as usize) <= seg - SEG_HEADER {
                             frees.insert(f as usize);
+                        }
+                    }
+                }
+                // everything between the two when they are close (the interval in which the size estimate and the
+                // stored size disagree about fitting)
+                let (lo, hi) = (est.min(stored), est.max(stored));
+                if hi - lo <= 400 {
+                    for f in lo..=hi {
+                        if f > 0 && f <= seg - SEG_HEADER {
+                            frees.insert(f);
                         }
                     }
                 }
@@ -202,7 +262,7 @@ pub fn run_case(case: &Case, out: &mut WorkerOut) {
     let mut accepted_at = None;
     for attempt in 0..3u64 {
         out.evals += 1;
-        match h.raw_append(cand_tx(&case.cand, 10 + attempt * 10)) {
+        match h.raw_append(cand_tx(&case.cand, 10 + attempt * 100)) {
             AppendOutcome::Accepted(_) => {
                 accepted_at = Some(attempt);
                 break;
@@ -232,9 +292,9 @@ pub fn run_case(case: &Case, out: &mut WorkerOut) {
         Some(attempt) => {
             // readable afterwards
             let db = h.db().clone();
-            let first = event_id(0, 10 + attempt * 10);
+            let first = cand_first_id(&case.cand, 10 + attempt * 100);
             match h.rt.block_on(async move { tokio::time::timeout(Duration::from_secs(5), db.read_transaction(partition_of(0), first)).await }) {
-                Ok(Ok(Some(ce))) if ce.len() == if case.cand.pair { 2 } else { 1 } => {}
+                Ok(Ok(Some(ce))) if ce.len() == case.cand.n() => {}
                 other => {
                     out.violation(
                         &format!("C19/accepted-not-readable/{region}"),
